@@ -11,7 +11,7 @@ impl Rng { fn next(&mut self) -> u64 { self.0 ^= self.0 << 13; self.0 ^= self.0 
            fn below(&mut self, n: usize) -> usize { (self.next() % (n as u64)) as usize } }
 #[derive(Clone, Copy, Debug, PartialEq)] enum Cut { Eq, Never, Always, Parity }
 #[derive(Clone, Debug)] enum Alt { Existing(usize), Fresh(u8, usize) }
-#[derive(Clone, Debug)] enum Spec { Var(usize), Const(i64), Map(u8, usize), Map2(u8, usize, usize), Bind(usize, Vec<Alt>) }
+#[derive(Clone, Debug)] enum Spec { Var(usize), Const(i64), Map(u8, usize), Map2(u8, usize, usize), Bind(usize, Vec<Alt>), Ref(usize), Old(u8, usize), Fold(Vec<usize>) }
 fn f1(f: u8, a: i64) -> i64 { match f % 4 { 0 => (a + 1) % 100, 1 => (a * 2) % 100, 2 => a % 2, _ => a / 2 } }
 fn f2(f: u8, a: i64, b: i64) -> i64 { match f % 3 { 0 => (a + b) % 100, 1 => (a * 3 + b) % 100, _ => a.max(b) } }
 fn suppress(c: Cut, old: i64, new: i64) -> bool { match c { Cut::Eq => old == new, Cut::Never => false, Cut::Always => true, Cut::Parity => old % 2 == new % 2 } }
@@ -39,6 +39,16 @@ impl Ref {
             Spec::Map(f, a) => { let (av, ac) = self.demand(a); self.finish(k, prev.val.is_none() || ac > prev.rec, f1(f, av), self.cuts[i], true) }
             Spec::Map2(f, a, b) => { let (av, ac) = self.demand(a); let (bv, bc) = self.demand(b);
                 self.finish(k, prev.val.is_none() || ac > prev.rec || bc > prev.rec, f2(f, av, bv), self.cuts[i], true) }
+            Spec::Ref(a) => { let (av, ac) = self.demand(a); // identity projection: runs (unlogged) when its input changed; cutoff on the projection
+                // map_ref directly over a map_with_old node gets no old value to compare: behaves as Cutoff::Never (upstream's ignored test map_with_old_map_ref)
+                let mut root = a; while let Spec::Ref(b) = self.specs[root] { root = b; }
+                let cut = if matches!(self.specs[root], Spec::Old(..)) { Cut::Never } else { self.cuts[i] };
+                let (_, chg) = self.finish(k.clone(), prev.val.is_none() || ac > prev.rec, av, cut, false);
+                self.st.get_mut(&k).unwrap().val = Some(av); // a map_ref node reads through: its value is always its input's current value
+                (av, chg) }
+            Spec::Old(f, a) => { let (av, ac) = self.demand(a); self.finish(k, prev.val.is_none() || ac > prev.rec, f1(f, av), Cut::Eq, true) }
+            Spec::Fold(xs) => { let mut need = prev.val.is_none(); let mut acc = 0i64; for j in xs.iter() { let (v, c) = self.demand(*j); if c > prev.rec { need = true; } acc = (acc + v) % 100; }
+                let n = xs.len() as u32; let r = self.finish(k.clone(), need, acc, self.cuts[i], false); if need { *self.expected.entry(k).or_insert(0) += n; } r }
             Spec::Bind(l, alts) => {
                 let (lv, lc) = self.demand(l);
                 let lk = format!("n{i}.body");
@@ -60,12 +70,13 @@ impl Ref {
 
 fn eval(specs: &[Spec], vars: &[i64], i: usize) -> i64 { match &specs[i] { Spec::Var(v) => vars[*v], Spec::Const(c) => *c,
     Spec::Map(f, a) => f1(*f, eval(specs, vars, *a)), Spec::Map2(f, a, b) => f2(*f, eval(specs, vars, *a), eval(specs, vars, *b)),
+    Spec::Ref(a) => eval(specs, vars, *a), Spec::Old(f, a) => f1(*f, eval(specs, vars, *a)), Spec::Fold(xs) => xs.iter().fold(0, |acc, j| (acc + eval(specs, vars, *j)) % 100),
     Spec::Bind(l, alts) => { let lv = eval(specs, vars, *l); match &alts[(lv.rem_euclid(alts.len() as i64)) as usize] { Alt::Existing(j) => eval(specs, vars, *j), Alt::Fresh(f, j) => f1(*f, eval(specs, vars, *j)) } } } }
 /// transitive inputs of the roots, given which alternative each bind currently has installed
 fn cone(specs: &[Spec], alt_of: &HashMap<usize, usize>, roots: &[usize]) -> HashSet<usize> {
     let mut seen = HashSet::new(); let mut stack: Vec<usize> = roots.to_vec();
     while let Some(i) = stack.pop() { if !seen.insert(i) { continue; }
-        match &specs[i] { Spec::Map(_, a) => stack.push(*a), Spec::Map2(_, a, b) => { stack.push(*a); stack.push(*b); }
+        match &specs[i] { Spec::Map(_, a) | Spec::Ref(a) | Spec::Old(_, a) => stack.push(*a), Spec::Fold(xs) => stack.extend(xs.iter()), Spec::Map2(_, a, b) => { stack.push(*a); stack.push(*b); }
             Spec::Bind(l, alts) => { stack.push(*l); if let Some(ai) = alt_of.get(&i) { match &alts[*ai] { Alt::Existing(j) | Alt::Fresh(_, j) => stack.push(*j) } } } _ => {} } }
     seen }
 fn run(seed: u64) -> Result<u64, String> {
@@ -83,12 +94,16 @@ fn run(seed: u64) -> Result<u64, String> {
     let gens: Rc<RefCell<HashMap<usize, u64>>> = Default::default();
     for _ in 0..(3 + rng.below(9)) {
         let idx = specs.len(); let n = idx;
-        let spec = match rng.below(10) { 0 => Spec::Const(rng.below(4) as i64), 1 | 2 | 3 | 4 => Spec::Map(rng.below(4) as u8, rng.below(n)), 5 | 6 => Spec::Map2(rng.below(3) as u8, rng.below(n), rng.below(n)),
+        let spec = match rng.below(13) { 0 => Spec::Const(rng.below(4) as i64), 1 | 2 | 3 | 4 => Spec::Map(rng.below(4) as u8, rng.below(n)), 5 | 6 => Spec::Map2(rng.below(3) as u8, rng.below(n), rng.below(n)),
+            10 => Spec::Ref(rng.below(n)), 11 => Spec::Old(rng.below(4) as u8, rng.below(n)), 12 => Spec::Fold((0..(1 + rng.below(3))).map(|_| rng.below(n)).collect()),
             _ => { let k = 2 + rng.below(2); Spec::Bind(rng.below(n), (0..k).map(|_| if rng.below(2) == 0 { Alt::Existing(rng.below(n)) } else { Alt::Fresh(rng.below(4) as u8, rng.below(n)) }).collect()) } };
         let node = { let ns = shared_nodes.borrow(); match &spec {
             Spec::Const(c) => st.constant(*c),
             Spec::Map(f, a) => { let (l, f) = (log.clone(), *f); ns[*a].map(move |x| { l.borrow_mut().push(format!("n{idx}")); f1(f, *x) }) }
             Spec::Map2(f, a, b) => { let (l, f) = (log.clone(), *f); ns[*a].map2(&ns[*b], move |x, y| { l.borrow_mut().push(format!("n{idx}")); f2(f, *x, *y) }) }
+            Spec::Ref(a) => ns[*a].map_ref(|x| x),
+            Spec::Old(f, a) => { let (l, f) = (log.clone(), *f); ns[*a].map_with_old(move |old: Option<i64>, x| { l.borrow_mut().push(format!("n{idx}")); let nv = f1(f, *x); (nv, old != Some(nv)) }) }
+            Spec::Fold(xs) => { let l = log.clone(); st.fold(xs.iter().map(|j| ns[*j].clone()).collect(), 0i64, move |acc, v| { l.borrow_mut().push(format!("n{idx}")); (acc + v) % 100 }) }
             Spec::Bind(lhs, alts) => { let (l, alts, sn, gens) = (log.clone(), alts.clone(), shared_nodes.clone(), gens.clone());
                 ns[*lhs].bind(move |&lv| { l.borrow_mut().push(format!("n{idx}.body"));
                     let g = { let mut gm = gens.borrow_mut(); let e = gm.entry(idx).or_insert(0); *e += 1; *e };
@@ -96,7 +111,7 @@ fn run(seed: u64) -> Result<u64, String> {
                         Alt::Existing(j) => sn.borrow()[j].clone(),
                         Alt::Fresh(f, j) => { let l2 = l.clone(); sn.borrow()[j].map(move |x| { l2.borrow_mut().push(format!("n{idx}#g{g}")); f1(f, *x) }) } } }) }
             Spec::Var(_) => unreachable!() } };
-        let c = pick_cut(&mut rng); node.set_cutoff(cutoff_of(c));
+        let c = if matches!(spec, Spec::Old(..)) { Cut::Eq } else { let c = pick_cut(&mut rng); node.set_cutoff(cutoff_of(c)); c };
         shared_nodes.borrow_mut().push(node); specs.push(spec); cuts.push(c);
     }
     // cutoffs on vars too
@@ -127,7 +142,7 @@ fn run(seed: u64) -> Result<u64, String> {
                     if let Spec::Bind(l, alts) = &rf.specs[i] { let lv = eval(&rf.specs, &rf.vars, *l); alt_of.insert(i, (lv.rem_euclid(alts.len() as i64)) as usize); } } }
                 let cone_ret = cone(&rf.specs, &alt_of, &roots0);
                 { let mut seen: HashMap<String, u32> = HashMap::new();
-                  for k in log.borrow().iter() { let c = seen.entry(k.clone()).or_insert(0); *c += 1; if *c > 1 { return Err(format!("C02 seed {seed} step {step}: {k} ran twice")); }
+                  for k in log.borrow().iter() { let c = seen.entry(k.clone()).or_insert(0); *c += 1; let maxc = { let i: usize = k[1..].split(|ch: char| !ch.is_ascii_digit()).next().unwrap().parse().unwrap(); if let Spec::Fold(xs) = &rf.specs[i] { xs.len() as u32 } else { 1 } }; if *c > maxc { return Err(format!("C02 seed {seed} step {step}: {k} ran {} times", *c)); }
                     let i: usize = k[1..].split(|ch: char| !ch.is_ascii_digit()).next().unwrap().parse().unwrap();
                     checks += 1;
                     if !cone_call.contains(&i) && !cone_ret.contains(&i) { return Err(format!("C05 seed {seed} step {step}: {k} ran outside both cones")); } } }
@@ -137,6 +152,7 @@ fn run(seed: u64) -> Result<u64, String> {
                 rf.t += 1; rf.done.clear(); rf.expected.clear();
                 let roots: Vec<usize> = observers.iter().map(|(i, _)| *i).collect();
                 let mut want_vals = vec![]; for i in &roots { want_vals.push(rf.demand(*i).0); }
+                if verbose { println!("step {step}: ran {:?} expected {:?}", log.borrow(), rf.expected.keys().collect::<Vec<_>>()); let mut ks: Vec<_> = rf.st.iter().collect(); ks.sort_by(|a, b| a.0.cmp(b.0)); for (k, r) in ks { println!("   ref {k}: val {:?} rec {} chg {}", r.val, r.rec, r.chg); } }
                 for ((i, o), w) in observers.iter().zip(want_vals) { checks += 1; let g = o.try_get_value(); if g != Ok(w) { return Err(format!("C01 seed {seed} step {step}: n{i} got {g:?} want {w}")); } }
                 let mut got: BTreeMap<String, u32> = BTreeMap::new(); for k in log.borrow().iter() { *got.entry(k.clone()).or_insert(0) += 1; }
                 if verbose { println!("step {step}: stabilise: ran {:?} expected {:?}", log.borrow(), rf.expected.keys().collect::<Vec<_>>()); }
